@@ -42,8 +42,9 @@ def replay_mask(args):
         ap = build(sh, c['cx'], c['cy'], c['q'], tx, ty)
         bb = ap.bbox
         got = [bb.ixmin - tx, bb.ixmax - tx, bb.iymin - ty, bb.iymax - ty]
+        rotated = (sh['kind'] not in ('circle', 'cann') and sh['ang'] != 0) or c['s'] not in (1, 2, 4, 8)
         if got != c['box']:
-            if not c['boxtie'] or any(abs(a - b) > 1 for a, b in zip(got, c['box'])) or got[0] > c['box'][0] or got[1] < c['box'][1] or got[2] > c['box'][2] or got[3] < c['box'][3]:
+            if not (c['boxtie'] and rotated) or any(abs(a - b) > 1 for a, b in zip(got, c['box'])) or got[0] > c['box'][0] or got[1] < c['box'][1] or got[2] > c['box'][2] or got[3] < c['box'][3]:
                 return [('bbox_is_minimal', sig, {'case': {k: c[k] for k in ('shape', 'cx', 'cy', 'q', 'box')}, 'got': got})]
             return out       # tie: one pixel larger is accepted, weights are then not comparable cell by cell
         s2 = c['s'] ** 2
@@ -52,6 +53,8 @@ def replay_mask(args):
         lo, hi = np.array(c['lower']), np.array(c['upper'])
         if w.shape != lo.shape:
             return [('mask_shape_is_bbox_shape', sig, {'case': c['shape'], 'got': list(w.shape), 'expected': list(lo.shape)})]
+        if not rotated:
+            lo = hi = np.array(c['impl'])          # dyadic, unrotated: exact arithmetic, the strict convention decides boundary points
         if np.any(np.abs(np.asarray(m.data) * s2 - w) > 1e-9) or np.any(w < np.minimum(lo, hi)) or np.any(w > np.maximum(lo, hi)):
             out.append(('subpixel_weight_is_fraction_of_centres_inside', sig, {'case': {k: c[k] for k in ('shape', 'cx', 'cy', 'q', 's', 'box', 'lower', 'upper')}, 'got': w.tolist()}))
         if c['s'] == 1:
